@@ -1459,3 +1459,30 @@ def prelim_kinds(R, ctx, rid):
     expected = {k for k, v in IN_KINDS.items() if v in names}
     R.ob(rid, fn, "all-kinds", expected <= seen, "kinds built: %s" % sorted(seen) if expected <= seen else "never builds TypeRef::%s" % sorted(expected - seen))
     R.floor(rid, "kind constructions checked", n, 12)
+
+
+def range_boundaries(R, ctx, rid):
+    """boundary ids of a range walk are compared as whole ids."""
+    import json as _json
+    Y = ctx.yrs
+    R.rule(rid, "R-SCAN boundary membership by whole id: the range iterators of iter.rs (behind quotations: unquote, materialize, "
+                "to_string of links) decide whether a boundary id falls into an item with Item::contains — client and clock — and "
+                "with nothing else: the expected number of raw comparisons that read the clock of an id there is zero (positive "
+                "control: the contains calls themselves). Clocks of different clients coincide all the time; a clock-only test ends "
+                "or starts a quotation at another client's item")
+    n_contains = 0
+    raw = []
+    for p, fn in sorted(Y.fns.items()):
+        if fn.file != "yrs/src/iter.rs" or not fn.mir or "::test" in p:
+            continue
+        n_contains += len([c for c in fn.calls() if re.search(r"::(Item|ItemPtr|ItemSlice)::contains(_id)?$", "::" + F.strip_generics(c.name))])
+        for i, j, st in fn.stmts():
+            rv = st["rv"]
+            if rv.get("bin") in ("Le", "Lt", "Ge", "Gt", "Eq", "Ne") and "ID.clock" in _json.dumps(st):
+                raw.append((fn, st.get("line"), rv["bin"]))
+    R.floor(rid, "Item::contains boundary tests in iter.rs", n_contains, 4)
+    for fn, line, op in raw:
+        R.ob(rid, fn, "raw-clock-test:%s" % op, False, "compares the clock of an id directly (%s) — the client is not part of the test" % op,
+             "%s:%s" % (fn.file, line))
+    if not raw:
+        R.ob(rid, "yrs::iter", "no-raw-clock-tests", True, "no boundary test in iter.rs reads an id's clock on its own (%d contains tests)" % n_contains)
